@@ -40,6 +40,8 @@ pub enum Step {
     TryRemove { pause: Option<u8> },
     Take { h: u8, pause: Option<u8> },
     Return { h: u8, pause: Option<u8> },
+    /// the holder panics: the object goes back while that thread unwinds
+    PanicReturn { h: u8 },
     Poll { f: u8, pause: Option<u8> },
     PollWoken { pause: Option<u8> },
     Cancel { f: u8 },
@@ -476,6 +478,28 @@ impl<'a> Interp<'a> {
             Step::Return { h, pause } => {
                 if let Some(i) = pick(h, self.held.len()) {
                     self.ret(i, pause);
+                }
+            }
+            Step::PanicReturn { h } => {
+                if let Some(i) = pick(h, self.held.len()) {
+                    let hobj = self.held.remove(i);
+                    let op = self.op();
+                    let id = hobj.id;
+                    self.loc[id as usize] = Loc::Returning;
+                    self.owner.insert(id, op);
+                    let obj = hobj.obj;
+                    self.labels.push("return:while-unwinding".into());
+                    let r: Result<(), PanicKind> = self.sched.run_inline(op, move || {
+                        let _held = obj;
+                        std::panic::panic_any(vcore::sched::Injected);
+                    });
+                    match r {
+                        Err(PanicKind::Injected) | Ok(()) => self.returned(id, op),
+                        Err(pk) => {
+                            self.loc[id as usize] = Loc::Gone;
+                            self.panicked("returning an object while its holder unwinds", pk)
+                        }
+                    }
                 }
             }
             Step::Poll { f, pause } => {
@@ -1319,6 +1343,7 @@ fn step(prop: &str) -> BoxedStrategy<Step> {
         (3, pa.clone().prop_map(|pause| Step::TryRemove { pause }).boxed()),
         (4, (any::<u8>(), pa.clone()).prop_map(|(h, pause)| Step::Take { h, pause }).boxed()),
         (10, (any::<u8>(), pa.clone()).prop_map(|(h, pause)| Step::Return { h, pause }).boxed()),
+        (1, any::<u8>().prop_map(|h| Step::PanicReturn { h }).boxed()),
         (3, (any::<u8>(), pa.clone()).prop_map(|(f, pause)| Step::Poll { f, pause }).boxed()),
         (8, pa.clone().prop_map(|pause| Step::PollWoken { pause }).boxed()),
         (3, any::<u8>().prop_map(|f| Step::Cancel { f }).boxed()),
